@@ -133,6 +133,13 @@ func (g *game) Resume() error {
 
 func (g *game) ApplyOptions(opts *GameOptions) error {
 
+	// Player handles and positions of the table this object served before must not
+	// survive: a table without dealer has no dealer
+	g.players = make(map[int]Player)
+	g.dealer = nil
+	g.smallBlind = nil
+	g.bigBlind = nil
+
 	g.gs = &GameState{
 		Players: make([]*PlayerState, 0),
 		Meta: Meta{
